@@ -388,6 +388,22 @@ func evalC16Redact(c c16Case) Result {
 			d.fail("input-modified", "URL %d was modified by RedactUserinfo: now %q, was %q", i+1, in.String(), origStr[i])
 		}
 	}
+	// a caller owns what it was given: it rewrites every field of its result (with a password in
+	// it), then the same input is redacted again, as it would be for the next log line
+	for i, r := range outs {
+		if users[i].isNil {
+			continue
+		}
+		*r = url.URL{Scheme: "rewritten", User: url.UserPassword("later-user", "later-secret"), Host: "rewritten.example", Path: "/rewritten", RawQuery: "rewritten=1"}
+		again := urlutil.RedactUserinfo(ins[i])
+		if diff := c16DifferingFields(again, &snaps[i].val); len(diff) != 0 || again.String() != strs[i] {
+			d.fail("second-call", "URL %d: after the caller changed the first result, RedactUserinfo of the same input gives %q (fields %v differ from the input's), the first call gave %q",
+				i+1, again.String(), diff, strs[i])
+		}
+		if !snaps[i].unchanged(ins[i]) {
+			d.fail("input-modified", "URL %d was modified through the result of RedactUserinfo", i+1)
+		}
+	}
 	// "for any two URLs that differ only in their non-nil userinfo … identical String()"
 	if !c.u1.isNil && !c.u2.isNil && strs[0] != strs[1] {
 		d.fail("interference", "results differ: %q vs %q", strs[0], strs[1])
